@@ -131,6 +131,9 @@ def expected_class(tp: AnyType) -> type:
         return tuple({v.__class__ for v in get_args2(tp)})  # type: ignore
     elif is_type(origin):
         return origin
+    elif is_union(origin):
+        # annotated union nested in a union; isinstance accepts nested tuples
+        return tuple(map(expected_class, get_args2(tp)))  # type: ignore
     elif is_new_type(origin):
         return expected_class(origin.__supertype__)
     elif is_type_var(origin) or origin is Any:
